@@ -297,7 +297,14 @@ def build_trigger(rec, state):
     from demeter.strategy import trigger as T
 
     spec = rec.spec
-    conv = (lambda t: pd.Timestamp(t)) if rec.as_pandas else (lambda t: t)
+    if rec.as_pandas == "aware":
+        # the same wall-clock times handed over as timezone-aware UTC values (the bars themselves are naive): a specification
+        # denotes the bars whose time it names
+        from datetime import timezone
+
+        conv = (lambda t: t.replace(tzinfo=timezone.utc)) if rec.idx % 2 else (lambda t: pd.Timestamp(t, tz="UTC"))
+    else:
+        conv = (lambda t: pd.Timestamp(t)) if rec.as_pandas else (lambda t: t)
 
     def action(snapshot, *args, **kw):
         rec.calls.append((state["bar"], snapshot.timestamp, args, kw))
@@ -413,6 +420,8 @@ def one_run(mon, rng, c, tier):
         r.kind = r.spec["kind"]
         r.kwargs = dict(rng.choice(KWARGS))
         r.as_pandas = rng.random() < 0.1
+        if not r.as_pandas and rng.random() < 0.08:
+            r.as_pandas = "aware"
         if rng.random() < 0.6 or nb == 1:
             r.reg_phase, r.reg_bar = "initialize", 0
         else:
